@@ -21,6 +21,8 @@ func init() {
 		},
 		Run: runC12,
 		Controls: []Control{
+			{Name: "replacement-assumes-established-session", File: "protocols/bgp/server/fsm_address_family.go", Old: "\tif f.adjRIBIn != nil {\n\t\tf.adjRIBIn.ReplaceFilterChain(c)\n\t}\n", New: "\tf.adjRIBIn.ReplaceFilterChain(c)\n", Expect: "replacement-in-any-session-state"},
+			{Name: "peer-settings-keep-old-policy", File: "protocols/bgp/server/peer.go", Old: "\tif p.ipv4 != nil {\n\t\tp.ipv4.importFilterChain = c\n\t}\n", New: "", Expect: "replacement-in-any-session-state"},
 			{Name: "med-action-equal-ignores-value", File: "routingtable/filter/actions/set_med_action.go", Old: "return a.med == b.(*SetMEDAction).med", New: "return true", Expect: "equal-covers-behaviour"},
 			{Name: "term-equal-ignores-actions", File: "routingtable/filter/term.go", Old: "\tfor i := range t.then {\n\t\tif !t.then[i].Equal(x.then[i]) {\n\t\t\treturn false\n\t\t}\n\t}\n", New: "", Expect: "equal-covers-behaviour"},
 			{Name: "change-detector-preference-only", File: "routingtable/adjRIBIn/adj_rib_in.go", Old: "if !currentPath.Compare(newPath) {", New: "if !currentPath.Equal(newPath) {", Expect: "change-detector-reads-policy-writes"},
@@ -156,6 +158,7 @@ func behNames(fs []*core.Fn) string {
 func runC12(c *core.Ctx) {
 	p := c.P
 	eqCoverage(c, "equal-covers-behaviour")
+	replacementInAnySessionState(c)
 
 	// (2) fields policy actions may write ----------------------------------------------------------
 	action := p.Named("routingtable/filter/actions", "Action")
@@ -628,4 +631,87 @@ func eqTruthTable(c *core.Ctx, rule, rel, tn string, nt *types.Named, eq *core.F
 		return
 	}
 	c.Check(bad == 0, rule, construct, eq.Decl.Pos(), fmt.Sprintf("%d of %d valuations disagree (first: %s): two policies that behave differently compare equal (a replacement is skipped) or equal ones compare different", bad, rows, first))
+}
+
+// replacementInAnySessionState: a policy replacement arrives in whatever state the session is.  The per-FSM address
+// family has its Adj-RIBs only while Established (assigned in init, cleared in dispose), so (a) the replacement stores
+// the new chain in the family unconditionally (init() builds the RIBs from it) and touches the RIBs only behind a test
+// that they exist; (b) the peer's own family settings, from which later FSMs are built, are updated too.
+func replacementInAnySessionState(c *core.Ctx) {
+	p := c.P
+	const rule = "replacement-in-any-session-state"
+	for _, dir := range []struct{ method, chainField, ribField string }{
+		{"replaceImportFilterChain", "importFilterChain", "adjRIBIn"},
+		{"replaceExportFilterChain", "exportFilterChain", "adjRIBOut"},
+	} {
+		f := c.MustFunc(srv + ".(*fsmAddressFamily)." + dir.method)
+		if f == nil {
+			continue
+		}
+		c.Analysed(f)
+		chainF := p.Field(srv, "fsmAddressFamily", dir.chainField)
+		ribF := p.Field(srv, "fsmAddressFamily", dir.ribField)
+		par := core.ParamObj(f, 0)
+		// the chain is stored on every path on which the function goes on (the early return for an equal chain is fine)
+		stored := false
+		ast.Inspect(f.Decl.Body, func(n ast.Node) bool {
+			if as, ok := n.(*ast.AssignStmt); ok && len(as.Lhs) == 1 && core.FieldOf(f.Pkg, as.Lhs[0]) == chainF && chainF != nil && core.ObjOf(f.Pkg, as.Rhs[0]) == par {
+				guarded := false
+				for _, ft := range core.CtlFactsAt(f, as) {
+					if ft.Enclosing {
+						guarded = true
+					}
+				}
+				if !guarded {
+					stored = true
+				}
+			}
+			return true
+		})
+		c.Check(stored, rule, f.Name()+" stores the new chain whatever the session state", f.Decl.Pos(), "the new chain is not stored in the address family unconditionally: a session that is down at the time of the reload comes up with the old policy")
+		n := 0
+		ast.Inspect(f.Decl.Body, func(nd ast.Node) bool {
+			call, ok := nd.(*ast.CallExpr)
+			if !ok {
+				return true
+			}
+			se, isSel := call.Fun.(*ast.SelectorExpr)
+			if !isSel || core.FieldOf(f.Pkg, se.X) != ribF || ribF == nil {
+				return true
+			}
+			n++
+			guarded := false
+			for _, ft := range core.FactsAt(f, call) {
+				if x, isNil := core.IsNilCheck(f.Pkg, ft.Expr); isNil && !ft.Truth && core.FieldOf(f.Pkg, x) == ribF {
+					guarded = true
+				}
+				if fv := core.FieldOf(f.Pkg, ft.Expr); fv != nil && fv.Name() == "initialized" && ft.Truth {
+					guarded = true
+				}
+			}
+			c.Check(guarded, rule, fmt.Sprintf("%s use #%d of %s behind a test that it exists", f.Name(), n, dir.ribField), call.Pos(),
+				"the "+dir.ribField+" exists only while the session is Established (init assigns it, dispose clears it), but the policy replacement calls a method on it unconditionally: a configuration reload that changes a policy of a neighbor whose session is down dereferences nil and crashes the daemon")
+			return true
+		})
+		c.Check(n >= 1, rule, f.Name()+" reaches the table of an established session", f.Decl.Pos(), "the replacement no longer calls ReplaceFilterChain on the "+dir.ribField)
+		// peer level
+		pf := c.MustFunc(srv + ".(*peer)." + dir.method)
+		if pf == nil {
+			continue
+		}
+		pchain := p.Field(srv, "peerAddressFamily", dir.chainField)
+		fams := map[string]bool{}
+		ast.Inspect(pf.Decl.Body, func(nd ast.Node) bool {
+			if as, ok := nd.(*ast.AssignStmt); ok && len(as.Lhs) == 1 && core.FieldOf(pf.Pkg, as.Lhs[0]) == pchain && pchain != nil && core.ObjOf(pf.Pkg, as.Rhs[0]) == core.ParamObj(pf, 0) {
+				if se, isSel := core.Unparen(as.Lhs[0]).(*ast.SelectorExpr); isSel {
+					if fv := core.FieldOf(pf.Pkg, se.X); fv != nil {
+						fams[fv.Name()] = true
+					}
+				}
+			}
+			return true
+		})
+		c.Check(fams["ipv4"] && fams["ipv6"], rule, pf.Name()+" updates the peer's own family settings (both families)", pf.Decl.Pos(),
+			"only the FSMs that exist now get the new chain; the peer's address family settings, from which the FSM of the next incoming connection is built, keep the old one: the next session of a passive peer runs with the old policy")
+	}
 }
